@@ -195,6 +195,12 @@ func (t *trans) expr(e cExpr) (string, vtype) {
 		case "emptyStrSet":
 			return "((as const (Array String Bool)) false)", vtype{"(Array String Bool)", nil}
 		}
+		if gt, ok := c.w.db.Ghosts[x.Name]; ok {
+			vt := t.resolveType(gt)
+			key := "G_" + x.Name
+			c.heapSorts[key] = vt.sort
+			return t.read(key), vt
+		}
 		// package-level constant of the module?
 		if p := c.w.pkgs[t.pkg]; p != nil {
 			if cn, ok := p.Pkg.Scope().Lookup(x.Name).(*types.Const); ok {
